@@ -65,6 +65,9 @@ class Engine(ExprMixin, CallMixin, StmtMixin):
         self.covered = set()
         self.memo_mismatch = {}
         self.globals_of_current = {}
+        self.replayers = {}
+        self.assumptions = collections.defaultdict(list)
+        self.bounded_notes = collections.defaultdict(list)
         from . import rules
         rules.install(self)
 
@@ -162,6 +165,7 @@ class Engine(ExprMixin, CallMixin, StmtMixin):
         self.current = c
         self.obligations = []
         self.covered = set()
+        self.called = set()
         self.stats = collections.Counter()
         key = c.body_of or c.key
         node = self.front.find(key)
